@@ -73,12 +73,35 @@ class ModelECU(Peer):
                 self.send(reply.hex().encode() + b"\n")
 
 
-def run_scanner(cls_name: str, cfg_name: str, cfg_kwargs: dict[str, Any], model: Any) -> dict[str, Any]:
-    """One complete scanner run (benign schedule). Returns observations."""
+def run_scanner(cls_name: str, cfg_name: str, cfg_kwargs: dict[str, Any], model: Any, db: bool = False) -> dict[str, Any]:
+    """One complete scanner run (benign schedule). Returns observations.
+    db=True: the run writes a scan database (aiosqlite replaced by vf.engine.dbshim); box['db_path'] is the file."""
     box: dict[str, Any] = {}
     CAPTURE.records = []
+    if db:
+        import os
+        from pathlib import Path
+
+        import gallia.db.handler as dbh
+        from vf.engine import dbshim
+
+        dbh.aiosqlite = dbshim  # type: ignore[attr-defined]
+        d = Path(f"/dev/shm/vf-scan-{os.getppid()}")
+        d.mkdir(parents=True, exist_ok=True)
+        dbp = d / f"scan-{os.getpid()}.sqlite"
+        for suffix in ("", "-wal", "-shm"):
+            try:
+                os.unlink(str(dbp) + suffix)
+            except FileNotFoundError:
+                pass
+        box["db_path"] = dbp
+        cfg_kwargs = dict(cfg_kwargs, db=dbp)
 
     def scenario(run: Run) -> None:
+        if db:
+            from vf.engine import dbshim
+
+            run.add_actor(dbshim.DbWorker())
         ecu = ModelECU(model)
         box["ecu"] = ecu
         ecus = [ecu]
